@@ -32,14 +32,14 @@ impl Prop for C06 {
         "cases = C05's generated worlds and steps, plus edits that are never notified and notifications for unrelated / unknown entries. After every barrier, from the loader/source log of the pass(es): \
          (1) an asset is re-loaded by the reloader only if the shadow dependency graph (what its loads were observed to touch, including failed attempts) connects it to a notified entry, and at most once per pass; \
          (2) the reloader thread reads the source only as part of such a reload; (3) reload ids start at NEVER and change exactly once per successful rewrite (polled after every hot_reload call), never for unaffected or failed ones, \
-         whose values also stay bit-identical; (4) ReloadWatcher::reloaded and reloaded_global answer true exactly when at least one rewrite happened since they were last asked, then false. \
+         whose values also stay bit-identical; (4) ReloadWatcher::reloaded and reloaded_global answer true exactly when at least one rewrite happened since they were last asked, then false; (5) in about one case in eight a racing phase: after the k-th true from a polling watcher the value read is at least version k. \
          non-trivial = a step with both reloaded and untouched cached assets, or an un-notified edit of a file some cached asset depends on, or a failed reload; distinct = different canonical JSON"
             .into()
     }
 
     fn assumptions(&self) -> Vec<String> {
         vec![
-            "the polling-reader race (value read after a watcher reported is at least as new) is exercised by C07's racing readers".into(),
+            "the polling-reader race is sampled (about one case in eight: 40..300 reloads against two polling watchers and two guard-holding readers)".into(),
             "in enhance_hot_reloading mode passes cannot be delimited from outside: the exact once-per-rewrite count is checked in hot_reload() mode only".into(),
         ]
     }
@@ -55,7 +55,15 @@ impl Prop for C06 {
     }
 
     fn strategy(&self, tier: Tier) -> BoxedStrategy<Value> {
-        hot::wcase_strategy(opts(tier), 0.08).prop_map(|c| to_case(&c)).boxed()
+        // about one case in eight ends with the polling-reader race (encoded as a marker step without edits)
+        (hot::wcase_strategy(opts(tier), 0.08), prop::bool::weighted(0.12), 40u16..300)
+            .prop_map(|(mut c, race, n)| {
+                if race {
+                    c.steps.push(hot::Step { edits: Vec::new(), notified: Vec::new(), batched: false, duplicate: false, noise: Vec::new(), order: n });
+                }
+                to_case(&c)
+            })
+            .boxed()
     }
 
     fn run(&self, case: &Value) -> Outcome {
@@ -77,6 +85,16 @@ impl Prop for C06 {
             }
         }
         for (sn, step) in c.steps.iter().enumerate() {
+            if step.edits.is_empty() && step.noise.is_empty() && sn + 1 == c.steps.len() && step.order >= 40 {
+                // the racing reader: after the k-th true from a polling ReloadWatcher the value read is at least the k-th version
+                if let Some((sig, what)) = super::c07::watcher_race(step.order, (step.order % 2) as u8) {
+                    out.fail(format!("racing-reader:{sig}"), format!("polling reader against {} reloads: {what}", step.order));
+                    return out;
+                }
+                out.nontrivial = true;
+                out.label("racing-polling-reader");
+                break;
+            }
             let deps_before = union(&r.world.shadow_deps(), &r.world.shadow_failed_extra());
             let cached_before = r.cached();
             let notes = r.apply_edits(step);
@@ -260,6 +278,6 @@ impl Prop for C06 {
     }
 
     fn required_labels(&self) -> Vec<&'static str> {
-        vec!["reloaded+untouched", "failed-reload", "unnotified-relevant-edit"]
+        vec!["reloaded+untouched", "failed-reload", "unnotified-relevant-edit", "racing-polling-reader"]
     }
 }
